@@ -1,12 +1,18 @@
 """C14 — Transform previews match their applied result.
 
-Per run: a small committed tree (bzr 2a or git) and a random script of low-level transform
+Per run: a small committed tree (bzr 2a or git) and a script of low-level transform
 operations over trans-ids (new_file / new_directory / new_symlink / create_path /
-delete_contents / unversion_file / version_file / adjust_path incl. loops, duplicates,
-missing and non-directory parents / set_executability / create_* on existing trans ids).
-Then `resolve_conflicts(tt)`.  If it returns: snapshot `tt.get_preview_tree()`, `apply()`,
-reopen the working tree, compare.  If it raises MalformedTransform: the tree must be
-untouched.  A hang is a liveness violation."""
+delete_contents / unversion_file / version_file / adjust_path / set_executability /
+create_* on existing trans ids).  Default scripts are composed of valid edits plus
+deliberately injected conflicts of every kind the resolvers know (duplicate, duplicate id,
+parent loop, missing parent, unversioned parent, non-directory parent, versioning no
+contents), the way commands run into them; VERIF_C14_WILD=1 switches to fully random
+operation sequences.  Then `resolve_conflicts(tt)`.  If it returns: snapshot
+`tt.get_preview_tree()` through the Tree API (iter_entries_by_dir, extras, kind,
+get_file_text, get_symlink_target, is_versioned, path2id, is_executable), `apply()`, reopen
+the working tree, compare.  If it raises MalformedTransform: the tree must be untouched.
+Any other exception, and a hang, are violations.  Mismatches are classified by cause
+(signature) so that each known defect is one entry and anything else stays visible."""
 
 import os
 
@@ -25,7 +31,7 @@ RULE = (
 )
 COMPONENTS = {
     "real": [
-        "breezy.transform.resolve_conflicts / conflict_pass / CONFLICT_RESOLVERS",
+        "breezy.transform.resolve_conflicts / conflict_pass / CONFLICT_RESOLVERS / PreviewTree",
         "breezy.bzr.transform.InventoryTreeTransform + InventoryPreviewTree",
         "breezy.git.transform.GitTreeTransform + GitPreviewTree",
         "2a / git working trees on a /dev/shm directory",
@@ -34,9 +40,11 @@ COMPONENTS = {
     "stub": ["UI (SilentUIFactory)"],
 }
 ASSUMPTIONS = [
-    "operations are issued only in states where the TreeTransform API accepts them (no double version_file / create_* on one trans id, root never moved); API misuse errors are not explored",
-    "executable bits are compared for versioned files; file ids only on trees that support them",
-    "a hang is detected by a 30 s real-time alarm around resolve_conflicts / preview / apply",
+    "operations are issued only in states where the TreeTransform API accepts them (no double version_file / create_* on one trans id, root never moved)",
+    "default scripts: valid edits + injected conflicts; an entry is not both moved and deleted; symlinks of the base tree never point at an existing directory or at themselves (iter_tree_children follows such links; seen in the wild mode, reported by hand)",
+    "the preview is read through iter_entries_by_dir / extras / kind / get_file_text / get_symlink_target / is_versioned / path2id / is_executable; walkdirs is not used (it raises for deleted entries whose path changed)",
+    "executable bits are compared for versioned files; file ids only on trees that support them; on git trees directories are not compared (a directory exists only through the files in it)",
+    "a hang is detected by a 30 s real-time watchdog around resolve_conflicts / preview / apply",
 ]
 STEP_CAP = 20000
 HANG_S = 30
@@ -108,32 +116,6 @@ class RefModel:
         if k in ("create_file", "create_directory", "create_symlink"):
             return not s.get("new_contents") and not s.get("root")
         return False
-
-    def tame(self, op):
-        """Stricter than ok(): keeps the script inside what the conflict resolvers are
-        written for (no overwrite of live content, executability only on versioned files,
-        loops only through existing directories, nothing versioned without contents)."""
-        k = op[0]
-        r = self.r
-        if k in ("new_file", "new_directory", "new_symlink", "create_path"):
-            if k == "new_file" and op[6] is not None and not op[5]:
-                return False
-            return k != "create_path" or True
-        s = r[op[-1]]
-        if k in ("create_file", "create_directory", "create_symlink"):
-            return s.get("kind") is None
-        if k == "set_executability":
-            return self.versioned(op[-1]) and s.get("kind") == "file"
-        if k == "version_file":
-            return s.get("kind") is not None
-        if k == "adjust_path":
-            par = r[op[2]]
-            if op[2] == op[-1]:
-                return False
-            if s.get("tree_kind") is None and par.get("tree_kind") is None and not par.get("root"):
-                return True
-            return True
-        return True
 
     def apply(self, op):
         k = op[0]
@@ -281,7 +263,7 @@ class Core:
         if name is None:
             return False
         self.ops.append(["adjust_path", name, parent, lab])
-        self.e[lab].update(name=name, parent=parent)
+        self.e[lab].update(name=name, parent=parent, touched=True)
         return True
 
     def replace(self, lab):
@@ -359,7 +341,7 @@ class Core:
             if movable and rng.random() < 0.5:
                 x = rng.choice(movable)
                 self.ops.append(["adjust_path", name, d, x])
-                self.e[x].update(name=name, parent=d)
+                self.e[x].update(name=name, parent=d, touched=True)
                 return True
             return self.add(parent=d, name=name) is not None
         if kind == "duplicate id":
@@ -494,7 +476,6 @@ def generate_wild(rng, tier):
         "create_directory": 1,
         "create_symlink": 1,
     }
-    tame = False
     if rng.random() < 0.3:  # a run biased towards moves (loops, duplicates)
         weights["adjust_path"] = 12
     pool = [k for k, w in weights.items() for _ in range(w)]
@@ -534,7 +515,7 @@ def generate_wild(rng, tier):
             op = [k, lab]
         else:
             op = [k, "tgt", lab]
-        if m.ok(op) and (not tame or m.tame(op)):
+        if m.ok(op):
             m.apply(op)
             ops.append(op)
     return {"fmt": fmt, "style": "wild", "tree": spec, "unversioned": unversioned, "ops": ops}
@@ -636,7 +617,7 @@ def moved_unchanged(tt):
 
     fp = FinalPaths(tt)
     out = {}
-    moved_from.clear()
+    moved_from = {}
     for tree_path, trans_id in sorted(tt._tree_path_ids.items()):
         if trans_id in tt._new_contents or trans_id in tt._removed_contents or tree_path == "":
             continue
@@ -648,10 +629,34 @@ def moved_unchanged(tt):
         if final != tree_path and kind is not None:
             out[final] = kind
             moved_from[final] = tree_path
+    return out, moved_from
+
+
+def explicit_exec_paths(tt):
+    from breezy.transform import FinalPaths
+
+    fp = FinalPaths(tt)
+    out = set()
+    for trans_id in tt._new_executability:
+        try:
+            out.add(fp.get_path(trans_id))
+        except Exception:  # noqa: BLE001
+            pass
     return out
 
 
-moved_from = {}
+def deleted_final_paths(tt):
+    from breezy.transform import FinalPaths
+
+    fp = FinalPaths(tt)
+    out = set()
+    for trans_id in tt._removed_contents:
+        if trans_id not in tt._new_contents:
+            try:
+                out.add(fp.get_path(trans_id))
+            except Exception:  # noqa: BLE001
+                pass
+    return out
 
 
 def reversioned_paths(tt):
@@ -696,6 +701,10 @@ def disk_listing(root):
 
 def versioned_set(tree, with_ids, versioned_dirs=True):
     out = []
+    if hasattr(tree, "index"):
+        # git working tree: the index itself (iter_entries_by_dir reads link targets from
+        # the disk and fails on stale entries)
+        return sorted([bp.decode("utf-8", "replace"), ""] for bp in tree.index)
     for path, ie in tree.iter_entries_by_dir():
         if ie.kind == "directory" and not versioned_dirs:
             continue  # git: a directory is listed only while it holds versioned files
@@ -774,7 +783,10 @@ def execute(sim, plan):
     crashed = None
     preview_error = None
     moved = {}
+    moved_from = {}
     reversioned = set()
+    explicit_exec = set()
+    deleted_names = set()
     try:
         done = run_script(sim, tt, plan, fmt)
         dog.arm()
@@ -794,8 +806,10 @@ def execute(sim, plan):
                 pre_list = preview_listing(pt)
                 pre = tree_view(pt, pre_list, with_ids, vdirs, guarded=True)
                 pre_versioned = versioned_set(pt, with_ids, vdirs)
-                moved = moved_unchanged(tt)
+                moved, moved_from = moved_unchanged(tt)
                 reversioned = reversioned_paths(tt)
+                explicit_exec = explicit_exec_paths(tt)
+                deleted_names = deleted_final_paths(tt)
             except Hang:
                 raise
             except Exception as e:  # noqa: BLE001 - the preview tree cannot even be listed
@@ -867,10 +881,16 @@ def execute(sim, plan):
         a, b = pre.get(p), post.get(p)
         if a == b:
             continue
+        if not vdirs and (a is None or a[0] == "directory") and (b is None or b[0] == "directory"):
+            continue  # git: a directory exists only through the files in it (an empty one is invisible)
         if a is None or b is None:
             text = f"{p!r}: preview {'has no such path' if a is None else a[:1]} / applied {'has no such path' if b is None else b[:1]}"
             if fmt == "git" and p in reversioned:
                 add("git:version-existing-file-ignored", text)
+            elif a is None and any(p == d or p.startswith(d + "/") for d in deleted_names):
+                # PreviewTree._path2trans_id stops at the first child with that final name,
+                # which may be the deleted entry whose name another entry takes over
+                add(f"{fmt}:path-lookup:name-reused-after-delete", text)
             else:
                 add("paths", text)
             continue
@@ -882,13 +902,14 @@ def execute(sim, plan):
             raises = str(a[i]).startswith("<raises")
             if f == "executable" and a[2] != b[2]:
                 continue  # consequence of the versioning mismatch reported for the same path
-            if f == "contents" and p in moved:
+            if f == "contents" and a[2] is not True and b[2] is not True and fmt == "bzr":
+                # the inventory preview finds contents by file id: entries without one (files the
+                # transform creates or rewrites without versioning them) are read from the old tree
+                add("bzr:preview-read:unversioned-entry", text)
+            elif f == "contents" and p in moved:
                 # the preview looks a moved-but-unchanged entry up at its NEW path in the old tree
                 add(f"{fmt}:preview-read:moved-unchanged", text)
-            elif f == "contents" and raises and a[2] is not True:
-                # the preview cannot read a file the transform creates without versioning it
-                add(f"{fmt}:preview-read:unversioned-new", text)
-            elif f == "executable" and (raises or (p in moved and a[i] is False and b[i] is True)):
+            elif f == "executable" and p not in explicit_exec:
                 # is_executable without an explicit new value asks the old tree about the NEW path
                 add(f"{fmt}:is_executable:new-path-in-old-tree", text)
             elif f == "versioned" and raises and fmt == "git":
@@ -911,6 +932,9 @@ def execute(sim, plan):
             add("git:child-of-moved-directory", text)
         else:
             add("versioned-entries", text)
+    if "git:child-of-moved-directory" in fam and "versioned" in fam:
+        # stale index entries below the old directory name make that name look versioned
+        fam["git:child-of-moved-directory"].extend(fam.pop("versioned"))
     if not fam:
         return
     known = findings.load(PROPERTY)
@@ -927,3 +951,32 @@ def execute(sim, plan):
         unknown.sort(key=lambda f: (":" in f, f))
         family = unknown[0]
         sim.fail("preview_equals_applied", ["preview_equals_applied", "none", family], "; ".join(fam[family][:6]) + f" [conflicts resolved: {sorted(set(seen))}; other mismatch families in this run: {[f for f in fam if f != family]}]")
+
+
+def shrink_candidates(plan):
+    """Generic candidates (drop operations) + drop entries of the base tree (children with
+    their parent; operations that lose their subject are skipped by their preconditions)."""
+    import copy
+
+    from simkit.shrink import generic_candidates
+
+    yield from generic_candidates(plan)
+    for key in ("this_ops",):
+        ops = plan.get(key)
+        if isinstance(ops, list):
+            for i in range(len(ops)):
+                p2 = copy.deepcopy(plan)
+                p2[key] = ops[:i] + ops[i + 1 :]
+                yield p2
+    tree = plan.get("tree", [])
+    for i in range(len(tree) - 1, -1, -1):
+        path = tree[i][0]
+        rest = [e for e in tree if e[0] != path and not e[0].startswith(path + "/")]
+        if len(rest) >= 1:
+            p2 = copy.deepcopy(plan)
+            p2["tree"] = rest
+            yield p2
+    if plan.get("unversioned"):
+        p2 = copy.deepcopy(plan)
+        p2["unversioned"] = []
+        yield p2
